@@ -1,5 +1,6 @@
 import ScrapliProps.C20Lemmas
 import ScrapliProps.C20Repr
+import ScrapliProps.C20ApiLemmas
 /-
   C20 — channel log and scrapli log file record the session faithfully.
   Property theorems only (specification and helper lemmas: C20Lemmas.lean; model: ScrapliModel/Log.lean;
@@ -257,6 +258,159 @@ theorem unbuffered_error_count (cfg : FmtCfg) (recs : List Rec) :
     errorCount (runHandler Variant.fixed cfg false recs) = (recs.filter fun r => !r.wfb).length := by
   unfold runHandler
   simpa [errorCount] using errorCount_foldl_baseEmit cfg recs {}
+
+/-! ## Ill-formed records through the buffering handler -/
+
+/-- **ill-formed records, buffering handler**: for EVERY record sequence — no well-formedness
+    assumed: arity mismatches, args without a directive, incomplete directives, on read and non-read
+    records — what the buffering handler writes and reports, in order, is `specEvs`, the specification
+    by maximal runs of read records: an ill-formed read record costs one logging error when it is
+    logged and neither ends nor feeds the run; the well-formed members of a run are ONE line (columns of
+    the first well-formed member, concatenated payloads) written when the run ends, a run without a
+    well-formed member writes nothing and uses no id; an ill-formed non-read record ends the run, costs
+    one error and uses no id. -/
+theorem buffered_illformed_events (cfg : FmtCfg) (recs : List Rec) :
+    runHandler Variant.fixed cfg true recs = specEvs cfg 1 recs := by
+  have := runFrom_specEvs cfg 1 recs {} rfl rfl
+  simpa [runFrom, runHandler] using this
+
+/-- … so the number of logging errors is the number of ill-formed records, buffered or not
+    (`unbuffered_error_count` is the plain handler) … -/
+theorem buffered_error_count (cfg : FmtCfg) (recs : List Rec) :
+    errorCount (runHandler Variant.fixed cfg true recs) = (recs.filter fun r => !r.wfb).length := by
+  rw [buffered_illformed_events, errorCount_specEvs]
+
+/-- … and on well-formed sequences the general specification is the coalescing specification of
+    `handler_refines_spec` (the two were written independently) -/
+theorem illformed_spec_extends_wf (cfg : FmtCfg) (recs : List Rec) (hwf : ∀ r ∈ recs, r.wf) :
+    specEvs cfg 1 recs = (specLines cfg 1 (specEntries true recs)).map Ev.line := by
+  rw [← buffered_illformed_events, handler_refines_spec cfg true recs hwf]
+
+/-- a sequence inside the quantifier: read, ILL-FORMED read (two directives, one argument), read,
+    ill-formed non-read (args without directive), ill-formed read alone, info:
+    the two good reads are one line although a bad read sits between them, the lone bad read leaves no line -/
+def exBad : List Rec :=
+  [{ msg := "read: %r".toList, args := [⟨"b'ab'".toList, "b'ab'".toList⟩] },
+   { msg := "read: %r %r".toList, args := [⟨"b'x'".toList, "b'x'".toList⟩] },
+   { msg := "read: %r".toList, args := [⟨"b'cd'".toList, "b'cd'".toList⟩] },
+   { msg := "plain".toList, args := [⟨"1".toList, "1".toList⟩] },
+   { msg := "read: %s".toList, args := [] , levelname := "DEBUG".toList },
+   { msg := "read: 100%".toList, args := [⟨"1".toList, "1".toList⟩] },
+   { msg := "done".toList }]
+
+example : runHandler Variant.fixed { logHeader := false } true exBad =
+    [.error .typeError,
+     .line "1     |  |          |                           | read : b\"b'ab'b'cd'\"".toList,
+     .error .typeError,
+     .error .valueError,
+     .line "2     |  | DEBUG    |                           | read : b'%s'".toList,
+     .line "3     |  |          |                           | done".toList] := by
+  decide +kernel
+
+/-! ## Histories of the logging API (ScrapliModel/LogApi.lean) -/
+
+/-- **C20, api_file_exact**: for EVERY history `pre ++ [enable_basic_logging(a)] ++ post` of calls and
+    records, ended by logging.shutdown() or by closing the handlers, and every variant of the handler:
+    if the call is valid and `f` is configured by this call only, then at the end
+    * the logger has exactly one handler on `f`, it is closed, and its life is that of a freshly
+      installed handler fed exactly the records `delivered a.level post` — those logged after the call
+      that pass the level in force when they are logged (each later call may change the level) —
+      each ONCE, in order, whatever other handlers the earlier and later calls stacked on the logger;
+    * the file is what it held before (nothing in write mode: truncated at the call) followed by what
+      that handler life writes, `runHandler`: nothing of it is lost at shutdown / close (the pending
+      run is flushed), nothing is written twice. -/
+theorem api_file_exact (v : Variant) (lvl0 : Nat) (files0 : Nat → Str) (pre post : List ApiOp) (a : EnableArgs)
+    (e : ApiEnd) (f : Nat) (m : Str) (hm : basicLoggingMode a.mode = .ok m) (hf : a.file = some f)
+    (hpre : ∀ op ∈ pre, configures f op = false) (hpost : ∀ op ∈ post, configures f op = false) :
+    let s := runApi v (Api.init lvl0 files0) (pre ++ .enable a :: post) e
+    let evs := runHandler v ⟨true, a.callerInfo⟩ a.bufferLog (delivered a.level post)
+    s.files f = fileAfter (m == ['a']) (files0 f) (fileText evs) ∧
+    ∃ hd, s.handlers.filter (onFile f) = [hd] ∧ hd.closed = true ∧ hd.st.out = evs ∧
+      hd.buffered = a.bufferLog ∧ hd.cfg = ⟨true, a.callerInfo⟩ := by
+  intro s evs
+  have h := runApi_single v lvl0 files0 pre post a e f m hm hf hpre hpost
+  have hout := fresh_life_out v f a.bufferLog ⟨true, a.callerInfo⟩ (delivered a.level post)
+  have hlife := fresh_life v f a.bufferLog ⟨true, a.callerInfo⟩ (delivered a.level post)
+  refine ⟨?_, _, h.1, ?_, hout, ?_, ?_⟩
+  · rw [h.2, hout]
+    cases (m == ['a']) <;> simp [fileAfter, evs]
+  · rw [hlife]
+  · rw [hlife]
+  · rw [hlife]
+
+/-- **completeness and order per file** (the fixed code, records whose own formatting succeeds): the
+    file of a path configured once is its old content (append mode) followed by exactly the specified
+    rendering of the delivered records — every record once, in emission order, maximal runs of read
+    records coalesced as `specEntries` says, numbered from 1, header first — and its handler reported
+    no logging error. -/
+theorem api_file_complete_in_order (lvl0 : Nat) (files0 : Nat → Str) (pre post : List ApiOp) (a : EnableArgs)
+    (e : ApiEnd) (f : Nat) (m : Str) (hm : basicLoggingMode a.mode = .ok m) (hf : a.file = some f)
+    (hpre : ∀ op ∈ pre, configures f op = false) (hpost : ∀ op ∈ post, configures f op = false)
+    (hwf : ∀ r ∈ delivered a.level post, r.wf) :
+    (runApi Variant.fixed (Api.init lvl0 files0) (pre ++ .enable a :: post) e).files f =
+      (if m == ['a'] then files0 f else []) ++ specFile ⟨true, a.callerInfo⟩ a.bufferLog (delivered a.level post) := by
+  have h := (api_file_exact Variant.fixed lvl0 files0 pre post a e f m hm hf hpre hpost).1
+  rw [h]
+  exact (handler_file ⟨true, a.callerInfo⟩ a.bufferLog (m == ['a']) (files0 f) _ hwf).1
+
+/-- **nothing duplicated — NOT in general** (finding C20-DUP): without "no later call configures the
+    same path" the statement is false.  `enable_basic_logging` never removes a handler, so a second call
+    on the same path (append mode) stacks a second handler on it and every later record is written to
+    that file twice (each copy with its own numbering and header row). -/
+theorem api_exactly_once_full_refuted :
+    ¬ ∀ (files0 : Nat → Str) (pre post : List ApiOp) (a : EnableArgs) (e : ApiEnd) (f : Nat) (m : Str),
+        basicLoggingMode a.mode = .ok m → a.file = some f → (∀ op ∈ pre, configures f op = false) →
+        (runApi Variant.fixed (Api.init 30 files0) (pre ++ .enable a :: post) e).files f =
+          fileAfter (m == ['a']) (files0 f)
+            (fileText (runHandler Variant.fixed ⟨true, a.callerInfo⟩ a.bufferLog (delivered a.level post))) := by
+  intro h
+  have h1 := h (fun _ => []) []
+    [.enable { file := some 0, level := 10, mode := "append".toList }, .emit { msg := "once".toList } 20]
+    { file := some 0, level := 10, mode := "append".toList } .shutdown 0 ['a'] rfl rfl (by simp)
+  have h2 := congrArg List.length h1
+  revert h2
+  decide +kernel
+
+/-- a path no call configures is left alone -/
+theorem api_untouched_file (v : Variant) (lvl0 : Nat) (files0 : Nat → Str) (ops : List ApiOp) (e : ApiEnd) (f : Nat)
+    (hops : ∀ op ∈ ops, configures f op = false) :
+    (runApi v (Api.init lvl0 files0) ops e).files f = files0 f :=
+  runApi_untouched v lvl0 files0 ops e f hops
+
+/-- an invalid `mode` raises after the level has been set and installs nothing -/
+theorem api_invalid_mode (v : Variant) (s : Api) (a : EnableArgs) (err : PyErr) (hm : basicLoggingMode a.mode = .error err) :
+    (apiStep v s (.enable a)).handlers = s.handlers ∧ (apiStep v s (.enable a)).raised = s.raised + 1 ∧
+    (apiStep v s (.enable a)).level = a.level ∧ (apiStep v s (.enable a)).files = s.files := by
+  simp [apiStep, hm]
+
+/-- a history inside the quantifiers: a record before any call (dropped: level WARNING, no handler),
+    file 0 buffered at debug, two reads, file 1 unbuffered at INFO (the level now hides debug records from
+    BOTH files), a hidden read, an info record, an invalid call, a warning, shutdown.
+    File 0: the two reads coalesced + info + warning; file 1 (append): old content + info + warning. -/
+def exHist : List ApiOp :=
+  [.emit { msg := "early".toList } 20,
+   .enable { file := some 0, level := 10, bufferLog := true },
+   .emit { msg := "read: %r".toList, args := [⟨"b'a'".toList, "b'a'".toList⟩] } 10,
+   .emit { msg := "read: %r".toList, args := [⟨"b'b'".toList, "b'b'".toList⟩] } 10,
+   .enable { file := some 1, level := 20, bufferLog := false, mode := "Append".toList },
+   .emit { msg := "read: b'hidden'".toList } 10,
+   .emit { msg := "info".toList } 20,
+   .enable { file := some 2, level := 20, mode := "tacocat".toList },
+   .emit { msg := "read: b'z'".toList } 30]
+
+example :
+    let s := runApi Variant.fixed (Api.init 30 fun f => if f = 1 then "old\n".toList else []) exHist .shutdown
+    (s.files 0 = ("ID    | TIMESTAMP               | LEVEL    | (UID:)HOST:PORT           | MESSAGE\n" ++
+                  "1     |  |          |                           | read : b\"b'a'b'b'\"\n" ++
+                  "2     |  |          |                           | info\n" ++
+                  "3     |  |          |                           | read : b\"b'z'\"\n").toList) ∧
+    (s.files 1 = ("old\n" ++
+                  "ID    | TIMESTAMP               | LEVEL    | (UID:)HOST:PORT           | MESSAGE\n" ++
+                  "1     |  |          |                           | info\n" ++
+                  "2     |  |          |                           | read: b'z'\n").toList) ∧
+    s.files 2 = [] ∧ s.raised = 1 ∧ s.handlers.length = 2 ∧
+    (delivered 30 exHist).length = 4 ∧ (delivered 10 (exHist.drop 2)).length = 4 := by
+  decide +kernel
 
 /-! ## Channel log -/
 
